@@ -62,6 +62,63 @@ def http_hints(w: dict) -> list:
             sys.modules.pop("requests", None)
 
 
+def awaitable_sink(w: dict) -> dict:
+    """one Guard whose log sink and metrics sink are written as PLAIN methods that RETURN an awaitable (the ports' `-> None |
+    Awaitable[None]`; `w["awaitable"]`: "coroutine" = a coroutine object, "object" = an object with `__await__`), one evaluation
+    through `w["api"]` ("sync" | "async" | "sync-in-loop"): what was actually emitted — a record / an increment counts only when the
+    awaitable the sink handed back was awaited — {"effect", "audit_records", "increments", "observations", "audit_decision",
+    "metric_labels"}"""
+    import asyncio
+    import warnings
+    from rbacx.core.engine import Guard
+    stored: list = []
+    incs: list = []
+    obs: list = []
+
+    class Later:
+        def __init__(self, work):
+            self.work = work
+
+        def __await__(self):
+            self.work()
+            return None
+            yield  # noqa: unreachable — makes __await__ a generator function
+
+    def deferred(work):
+        if w.get("awaitable", "coroutine") == "object":
+            return Later(work)
+
+        async def later():
+            work()
+        return later()
+
+    class L:
+        def log(self, payload):                      # DecisionLogSink.log -> None | Awaitable[None]
+            return deferred(lambda: stored.append(payload))
+
+    class M:
+        def inc(self, name, labels=None):            # MetricsSink.inc -> None | Awaitable[None]
+            return deferred(lambda: incs.append((name, labels)))
+
+        def observe(self, name, value, labels=None):
+            return deferred(lambda: obs.append((name, labels)))
+    g = Guard(w["policy"], logger_sink=L(), metrics=M())
+    s_, a_, r_, c_ = real.make_request(w["request"])
+    with warnings.catch_warnings():
+        warnings.simplefilter("ignore", RuntimeWarning)        # "coroutine … was never awaited" is the defect itself
+        api = w.get("api", "sync")
+        if api == "async":
+            d = asyncio.run(g.evaluate_async(s_, a_, r_, c_))
+        elif api == "sync-in-loop":
+            async def outer():
+                return g.evaluate_sync(s_, a_, r_, c_)
+            d = asyncio.run(outer())
+        else:
+            d = g.evaluate_sync(s_, a_, r_, c_)
+    return {"effect": d.effect, "audit_records": len(stored), "increments": len(incs), "observations": len(obs),
+            "audit_decision": [p.get("decision") for p in stored], "metric_labels": [lb for _, lb in incs]}
+
+
 def replay_fixed(run: lib.Run, ids: list[str]) -> list[tuple[str, bool]]:
     """returns violations [(replay_path, True)] for every listed fixed finding that reproduces"""
     corpus = json.load(open(os.path.join(lib.VERIF, "corpus", "fixed.json")))
@@ -74,6 +131,9 @@ def replay_fixed(run: lib.Run, ids: list[str]) -> list[tuple[str, bool]]:
         elif w.get("kind") == "http-hints":
             res = http_hints(w)
             ok = res[0] == res[1]
+        elif w.get("kind") == "awaitable-sink":
+            res = awaitable_sink(w)
+            ok = all(res.get(k) == v for k, v in w["expect"].items())
         else:
             res = real.run_guard(w["policy"], w["request"], w.get("cfg") or {})
             ok = "ok" in res and all(res["ok"][k] == v for k, v in w["expect"].items())
